@@ -83,7 +83,7 @@ extern "C" int __wrap__aes_self_tests(void)
         g_runner = g_cur;
         int r = call_body(__real__aes_self_tests);
         for (int i = 0; i < g_yield; i++) g_sink++;
-        return r | g_outcome_fail;
+        return r | ((g_outcome_fail & 1) ? 1 : 0); // the AES group reports a failure as 1
 }
 extern "C" int __wrap__sha_self_tests(void)
 {
@@ -91,7 +91,7 @@ extern "C" int __wrap__sha_self_tests(void)
         int r = call_body(__real__sha_self_tests);
         for (int i = 0; i < g_yield; i++) g_sink++;
         g_tests_done = 1;
-        return r;
+        return (g_outcome_fail & 2) ? -1 : r; // the SHA group reports a failure as -1 (fips/sha_self_tests.c)
 }
 extern "C" void __wrap__sha1_ctx_mgr_init(void *mgr)
 {
@@ -324,7 +324,7 @@ static bool run_parallel(const Case &c, pbt::Ctx &ctx)
         uint64_t contended = 0;
         bool ok = true;
         ctx.label("threads=" + std::to_string(n));
-        ctx.label(c.fail ? "outcome=fail" : "outcome=pass");
+        ctx.label(c.fail == 0 ? "outcome=pass" : c.fail == 1 ? "outcome=fail(aes group)" : c.fail == 2 ? "outcome=fail(sha group)" : "outcome=fail(both groups)");
         ctx.label("mode=parallel-real-threads");
         for (long r = 0; r < rounds && ok; r++) {
                 unsigned sp = 0;
@@ -420,7 +420,7 @@ static bool run(const Case &c, pbt::Ctx &ctx)
         g_case = nullptr;
 
         ctx.label("threads=" + std::to_string(c.n));
-        ctx.label(c.fail ? "outcome=fail" : "outcome=pass");
+        ctx.label(c.fail == 0 ? "outcome=pass" : c.fail == 1 ? "outcome=fail(aes group)" : c.fail == 2 ? "outcome=fail(sha group)" : "outcome=fail(both groups)");
         ctx.label(c.mode == 2 ? "mode=enumerated<=2-preemptions" : c.mode ? "mode=preemption-list" : "mode=burst-bytes");
         ctx.label("steps", g_steps);
         ctx.nontrivial = g_max_in_check >= 2 || g_spin_before_publish;
@@ -530,13 +530,13 @@ int main(int argc, char **argv)
                                 g_combos.push_back(cb);
                                 g_enum_total += cb.count;
                         };
-                        for (int fail = 0; fail < 2; fail++)
+                        for (int fail = 0; fail < 3; fail++)
                                 for (int yield : { 0, 3 }) {
                                         add(2, { 0, 0 }, fail, yield);
                                         add(2, { 0, 1 }, fail, yield);
                                         add(2, { 1, 1 }, fail, yield);
                                 }
-                        for (int fail = 0; fail < 2; fail++) {
+                        for (int fail = 0; fail < 3; fail++) {
                                 add(3, { 0, 0, 0 }, fail, 0);
                                 add(3, { 1, 0, 1 }, fail, 0);
                         }
@@ -556,7 +556,7 @@ int main(int argc, char **argv)
                 }
                 Case c;
                 c.n = weighted({ 1, 6, 5, 2, 1 }) + 1;
-                c.fail = coin(1, 3);
+                c.fail = coin(1, 3) ? rng<int>(1, 3) : 0; // which group reports the failure: 1 aes, 2 sha, 3 both
                 c.yield = weighted({ 2, 3, 1 }) == 0 ? 0 : rng<int>(1, 40);
                 for (int i = 0; i < c.n; i++) c.kinds.push_back(coin(1, 3));
                 if (coin(1, (int) ctx.optnum("par_every", 12))) {
